@@ -257,8 +257,10 @@ pub fn c11(tier: &str, seed: u64) -> i32 {
             Letter { kind: L_DEL, map: 0, handle: H_DBCLONE, key: 1, val: 0 },
             Letter { kind: L_PUT, map: 1, handle: H_FIRST, key: 0, val: 1 },
             Letter { kind: L_DEL, map: 1, handle: H_CLONE, key: 0, val: 0 },
+            // a value longer than one 4 KiB buffer chunk
+            Letter { kind: L_PUT, map: 0, handle: H_LOOKUP, key: 0, val: 2 },
         ];
-        let cfg3 = BCfg { maps: vec![m0, m1], letters: letters3, val_lens: vec![200, 300], depth: if thorough { 8 } else { 6 }, ..cfg.clone() };
+        let cfg3 = BCfg { maps: vec![m0, m1], letters: letters3, val_lens: vec![200, 300, 5000], depth: if thorough { 8 } else { 6 }, ..cfg.clone() };
         c11_explore(&mut ctx, &cfg3, if thorough { 300.0 } else { 20.0 }, "slot reuse in one map while the other is watched");
     }
     let rule = "bounded-exhaustive call sequences on live handles (engine B) over several named maps of mixed key types in one directory (maps a and b use the same keys): letters = {put k1, delete k1, put k2} on map i through handle kind h in {first handle, its clone, repeated lookup, lookup through db.clone(), *_with_params(other parameters)} plus db.sync_all; all sequences of the depth. oracle after every call: every live handle of every map answers get of every key and len per that map's own model (aliases see each other at once, other maps unchanged); at the end every map's files decode to its model; projection differential: the files of map j are a function of the subsequence of updates of map j alone - compared byte-digest-wise across all sequences with the same projection. non-trivial = projection comparisons";
@@ -450,6 +452,65 @@ pub fn c12(tier: &str, seed: u64) -> i32 {
         }
     }
     ctx.run.add("golden_images", images);
+    // a release-written map whose name contains dots: the three files are `<name>.htx/.key/.val`, whatever the name is
+    if ctx.run.violations.is_empty() {
+        for kt in [KtId::Bytes, KtId::U64] {
+            let dir = root.join(kt.name()).join("deletes-overwrites");
+            let (img, expected) = match (Image::read(&dir, MAP_NAME), read_expected(&dir)) {
+                (Ok(i), Some(e)) => (i, e),
+                _ => continue,
+            };
+            let scratch = Scratch::new("c12name");
+            for name in ["fruits.2023", "a.b.c", "v1.0."] {
+                let d = scratch.fresh("d");
+                if img.write(&d, name).is_err() {
+                    crate::report::machinery_failure("cannot write a renamed golden image");
+                }
+                let before = Image::read(&d, name).ok();
+                let complaint: Option<String> = crate::with_kt!(kt, T => {
+                    match open_map::<T>(&d, name, &Params::buckets(64)) {
+                        Out::Ok((db, mut m)) => {
+                            use abyssiniandb::DbXxx;
+                            let mut bad = None;
+                            if guard(|| abyssiniandb::DbXxxBase::len(&m)) != Out::Ok(expected.len() as u64) {
+                                bad = Some("len() differs from the recorded contents".to_string());
+                            }
+                            for (k, v) in expected.iter() {
+                                if bad.is_none() && guard(|| DbXxx::get(&mut m, &k[..])) != Out::Ok(Some(v.clone())) {
+                                    bad = Some(format!("get({}) differs from the recorded contents", crate::util::show(k)));
+                                }
+                            }
+                            let _ = guard_plain(move || { drop(m); drop(db); });
+                            bad
+                        }
+                        o => Some(format!("open {}", o.failed().unwrap_or_default())),
+                    }
+                });
+                let complaint = complaint.or_else(|| {
+                    let after = Image::read(&d, name).ok();
+                    let extra: Vec<String> = std::fs::read_dir(&d).map(|r| r.filter_map(|e| e.ok()).map(|e| e.file_name().to_string_lossy().to_string()).filter(|f| !f.starts_with(name)).collect()).unwrap_or_default();
+                    if after != before {
+                        Some("the three files changed by opening and reading".to_string())
+                    } else if !extra.is_empty() {
+                        Some(format!("other files appeared in the directory: {:?}", extra))
+                    } else {
+                        None
+                    }
+                });
+                ctx.run.add("golden_images_under_dotted_names", 1);
+                if let Some(c) = complaint {
+                    let msg = format!("golden/{}/deletes-overwrites stored as map `{name}` ({name}.htx, {name}.key, {name}.val): {c}", kt.name());
+                    ctx.run.violation(Violation { prop: "C12".into(), key: format!("dotted-name:{}", kt.name()), message: msg.clone(), replay: Replay { engine: "C12n".into(), config: vec![], case: vec![], story: vec![msg, "replay: run ./check C12 quick (the case is re-created from the golden image)".into()] } });
+                }
+            }
+        }
+    }
+    // chain links of three bytes next to value offsets of two in files written now (key file beyond 192 KiB): the
+    // records must have the documented encoding and stay inside their slots
+    if ctx.run.violations.is_empty() {
+        let specs200 = vec![crate::props_c08::SeedSpec { file: "key", boundary: 200 * 1024, eps: 0, free_slots: 2, val_pad: 1201 }];
+        crate::props_c08::seeded_group(&mut ctx, "C12", O_API | O_DEC | O_DEC_CONTENTS, ALL_CLAUSES, 3, vec![3], &specs200, 30_000, 6.0);
+    }
     // every entry of every golden image updated once, from the original image
     if ctx.run.violations.is_empty() {
         ctx.pool.reinit(vec![]);
